@@ -257,7 +257,7 @@ public:
 
 template < typename G >
 static std::string trace_ray(G &grid, const double *u, const double *anchor, const long *p, const long *d, long tau2,
-                             const std::vector< DensityGrid::iterator > &order) {
+                             const std::vector< DensityGrid::iterator > &order, const bool with_iod = false) {
   for (auto it = grid.begin(); it != grid.end(); ++it)
     it.get_ionization_variables().set_mean_intensity(ION_H_n, 0.);
   const double v[3] = {d[0] * u[0], d[1] * u[1], d[2] * u[2]};
@@ -272,6 +272,17 @@ static std::string trace_ray(G &grid, const double *u, const double *anchor, con
   photon.set_cross_section(ION_He_n, 0.);
   photon.set_cross_section_He_corr(0.);
 #endif
+  // total optical depth along the ray up to the box boundary (only defined for boxes the ray can leave)
+  double iod = -1.;
+  if (with_iod) {
+    Photon probe(photon.get_position(), photon.get_direction(), 4.0e15);
+    probe.set_cross_section(ION_H_n, sigma);
+#ifdef HAS_HELIUM
+    probe.set_cross_section(ION_He_n, 0.);
+    probe.set_cross_section_He_corr(0.);
+#endif
+    iod = grid.integrate_optical_depth(probe);
+  }
   const bool absorbed = (grid.interact(photon, 0.5 * tau2) != grid.end());
   std::vector< double > dep, end;
   for (size_t i = 0; i < order.size(); ++i)
@@ -279,7 +290,8 @@ static std::string trace_ray(G &grid, const double *u, const double *anchor, con
   for (int k = 0; k < 3; ++k)
     end.push_back((photon.get_position()[k] - anchor[k]) / u[k]);
   std::ostringstream s;
-  s << "{\"abs\":" << (absorbed ? 1 : 0) << ",\"end\":" << jd(end) << ",\"dep\":" << jd(dep) << "}";
+  s.precision(17);
+  s << "{\"abs\":" << (absorbed ? 1 : 0) << ",\"end\":" << jd(end) << ",\"dep\":" << jd(dep) << ",\"iod\":" << iod << "}";
   return s.str();
 }
 
@@ -476,7 +488,7 @@ static int do_cart(const char *in, const char *outname) {
       long p[3], d[3], tau2;
       f >> tag >> p[0] >> p[1] >> p[2] >> d[0] >> d[1] >> d[2] >> tau2;
       if (complete)
-        out << (i ? "," : "") << trace_ray(grid, u, a, p, d, tau2, order);
+        out << (i ? "," : "") << trace_ray(grid, u, a, p, d, tau2, order, per[0] + per[1] + per[2] == 0);
     }
     out << "],\"complete\":" << (complete ? 1 : 0) << "}\n";
     out.flush();
